@@ -33,6 +33,7 @@ def run(ctx):
             c.ob("R2", ok, s.func, "calls-schedule", "tasks are (re)armed only on entry and by rollback" if ok else
                  f"{s.func.short} re-arms a state's timers outside entry/rollback: the delay restarts without a re-entry", s.call)
     c.floor("R2", "timer arming call sites", n, 6)
+    shared.rollback_rearm(ctx, "R2")
     g = cfg_of(sched.node)
     calls = self_calls_in(sched, "_after_timer")
     c.floor("R2", "_after_timer calls in _schedule_state_tasks", len(calls), 1)
@@ -55,6 +56,10 @@ def run(ctx):
             any("event" in norm(k.value) for k in src.keywords) 
         c.ob("R2", ok3, sched, "timer-event-is-transition-event", "the timer enqueues the transition's own after-event" if ok3 else
              "the event handed to the timer is not built from the transition's event name", call)
+    rd = self_calls_in(sched, "_resolve_delay")
+    ok = bool(rd) and all(any(isinstance(l, ast.For) and "after" in norm(l.iter) for l in enclosing_loops(sched, x)) for x in rd)
+    c.ob("R2", ok, sched, "delay-resolved-at-entry", "named / computed delays are resolved when the state's tasks are armed (at entry)" if ok else
+         "_schedule_state_tasks no longer resolves the delay through _resolve_delay for each after-key", sched.node)
     # ---- R3 stop() releases every timer container ------------------------------------
     st = roles(ctx, "SyncInterpreter").stop
     sets = [x for x in own_nodes(st.node) if isinstance(x, ast.Call) and isinstance(x.func, ast.Attribute) and x.func.attr == "set"
